@@ -38,7 +38,19 @@ pub fn cross<S: Sch>(rec: &mut Rec) {
         let hid = if S::HIDING { Some(1) } else { None };
         let bound = b[1].degree_bound();
         let full: Vec<LP<S>> = b.iter().map(|p| lp::<S>(p.label(), p.polynomial().clone(), bound, hid)).collect();
-        vec![("plain", plain), ("mixed", b), ("bound+hiding", full)]
+        let mut v = vec![("plain", plain), ("mixed", b.clone()), ("bound+hiding", full)];
+        // polynomials that differ only by an exchange of two variables (independent trapdoors / generators
+        // per variable are what tells them apart)
+        let shapes = S::shapes(&cfg, rec.seed);
+        let dense = shapes.iter().rev().find(|(m, _)| m.starts_with("dense")).unwrap().1.clone();
+        if let Some(sw) = S::swap_vars(&dense) {
+            if let Some(sw2) = S::swap_vars(b[1].polynomial()) {
+                let hid = if S::HIDING { Some(1) } else { None };
+                v.push(("variables-exchanged", vec![lp::<S>("p0", dense.clone(), None, None), lp::<S>("p1", sw.clone(), None, None), lp::<S>("p2", sw2.clone(), None, None)]));
+                v.push(("variables-exchanged+hiding", vec![lp::<S>("p0", dense, None, hid), lp::<S>("p1", sw, None, hid), lp::<S>("p2", sw2, None, hid)]));
+            }
+        }
+        v
     };
     let labels = slice_b_labels::<S>(&cfg, rec.seed);
     let z = labels[0].1.clone();
